@@ -15,7 +15,7 @@ def main(tier, which='C07'):
     rnd = random.Random(V.seed() + (0 if which == 'C07' else 77))
     n = (1000 if which == 'C07' else 1500) if quick else 8000
     if which == 'C07':
-        cases = [LC.gen_case(rnd) for _ in range(n)] + [LC.gen_crowded(rnd) for _ in range(4 * n)] + [LC.gen_redundant(rnd) for _ in range(4 * n)]
+        cases = [LC.gen_case(rnd) for _ in range(n)] + [LC.gen_crowded(rnd) for _ in range(4 * n)] + [LC.gen_redundant(rnd) for _ in range(4 * n)] + [LC.gen_double_conflict(rnd) for _ in range(2 * n)]
     else:
         cases = [LC.gen_case(rnd, want_overlap=True, clusters=(i % 3 == 0)) for i in range(n)]
     of, data = LC.run_cases(hl, d, 'cases', cases, which)
